@@ -1091,6 +1091,18 @@ type op struct {
 // nbSet issues a change through the real gNMI Set handler (in a goroutine: the handler waits for the controllers)
 func (h *H) nbSet(ops []op, sync, ser bool) {
 	req := &gnmi.SetRequest{Extension: []*gnmi_ext.Extension{strategyExt(sync, ser)}}
+	if h.r.Intn(3) == 0 {
+		// a client managing several devices attaches the same type/version overrides to each of its Sets: entries for
+		// targets this Set does not change (all targets here have that type and version: the answer is the same)
+		ov := &configapi.TargetVersionOverrides{Overrides: map[string]*configapi.TargetTypeVersion{}}
+		for _, t := range h.targets {
+			ov.Overrides[t] = &configapi.TargetTypeVersion{TargetType: ttype, TargetVersion: tversion}
+		}
+		if b, err := ov.Marshal(); err == nil {
+			req.Extension = append(req.Extension, &gnmi_ext.Extension{Ext: &gnmi_ext.Extension_RegisteredExt{RegisteredExt: &gnmi_ext.RegisteredExtension{
+				Id: configapi.TargetVersionOverridesID, Msg: b}}})
+		}
+	}
 	for _, o := range ops {
 		if o.del {
 			req.Delete = append(req.Delete, parsePath(o.target, o.path))
